@@ -1050,6 +1050,12 @@ def judge_one(ctx, i, c, rec, cuts, objs):
     if len(listed) >= 3 and unavailable and (J.reach != set(range(m["N"])) or ghosty):
         ctx.nontrivial(digest([m, rep]))
     ctx.count(f"style_{c.get('style', '?')}")
+    if m["PD"] >= 10 ** 8:
+        ctx.skip("planning clause not evaluated on the rare-probability family (exact optimal values would overflow 30 bits)")
+        dropped = dict(m, P=[[[x if x > 10 else 0 for x in row] for row in sa] for sa in m["P"]],
+                       p0=[x if x > 10 else 0 for x in m["p0"]])
+        if any(m["p0"]) and any(dropped["p0"]) and gen.reach(dropped) != J.reach:
+            ctx.count("rare_instances_with_a_state_reachable_only_through_a_tiny_entry")
     ctx.sample({"instance": {k: m[k] for k in ("N", "K", "PD", "GN", "GD", "ID", "abs", "avail", "P", "R", "p0", "Z", "Z0", "explicit", "cuts")},
                 "rep": rep, "reach": sorted(J.reach), "cut_results": [sorted(map(sorted, s)) for s in cuts],
                 "real_state_list": objs.get("base", {}).get("sl")})
@@ -1072,6 +1078,7 @@ def run(ctx):
     n = 640 if ctx.tier == "quick" else 6000
     ctx.rule = ("random members of the C06 family (1-4 ordinary + 0-2 explicitly absorbing states with ghost dynamics, dead ends, "
                 "implicitly absorbing states, absorbing initial states, zero-probability entries inside and outside the list, "
+                "rare-probability rows / initial distributions with entries of 1e-9 and 1e-8 over denominators 10^8 / 10^9, "
                 "explicit shuffled or inferred lists, max_states cut-offs 0..N+1) x label kinds x distribution classes x "
                 "constructors; non-trivial = >= 3 listed states, some listed state with an unavailable action, and either an "
                 "unreachable state or a listed absorbing state with outgoing ghost dynamics")
